@@ -1897,7 +1897,16 @@ class AbelianArray(BlockBase):
         _zeros = ar.get_lib_fn(backend, "zeros")
         zeros_kwargs = {}
         if hasattr(_ex_array, "dtype"):
-            zeros_kwargs["dtype"] = _ex_array.dtype
+            # blocks can differ in element type (e.g. the sum of a real and a
+            # complex array): the fused blocks must be able to hold all of them
+            zeros_kwargs["dtype"] = functools.reduce(
+                lambda dta, dtb: (
+                    dta
+                    if dta == dtb
+                    else ar.do("promote_types", dta, dtb, like=backend)
+                ),
+                (x.dtype for x in self._blocks.values()),
+            )
         if hasattr(_ex_array, "device"):
             zeros_kwargs["device"] = _ex_array.device
 
